@@ -51,7 +51,7 @@ def handle (case obs : List String) : String × String :=
     let m := runDec c
     let msgs := obsMsgs obs
     let vp := validPrefix c
-    (m, verdict [("no-panic-no-hang", !obs.any isBad),
+    (m, verdict [("no-panic-no-hang", !obs.any isBad), ("no-lost-wakeup", noLostWakeup obs),
                  ("every-poll-completes", (obs.filter (fun t => tokKind t ≠ 'a')).length == c.npolls),
                  ("messages-are-valid-prefix-of-input", msgs.length ≤ vp.length && vp.take msgs.length == msgs),
                  ("first-error-final", ((afterFirstErr obs).filter (fun t => tokKind t ≠ 'a')).all (fun t => t = "n")),
